@@ -37,14 +37,17 @@ void harness(void) {
     __CPROVER_assume(finestGrid_nr <= 1200 && finestGrid_ntheta <= 2400);
 #endif
     g_thrown = 0;
+    const int cap0 = max_levels_;
     const int L = chooseNumberOfLevels();
+    /* setup() must not rewrite the user's options: a solver object is set up again for other grids (C13) */
+    __CPROVER_assert(max_levels_ == cap0, "OBL:chooseNumberOfLevels_leaves_the_level_cap_option_unchanged[C13]");
     /* a two-level hierarchy exists iff the finest grid can be coarsened once to at least 5 x 4 nodes and has ntheta % 4 == 0 */
     const _Bool two_levels_possible = (finestGrid_nr % 2 == 1) && (finestGrid_nr + 1) / 2 >= 5 &&
-                                      (finestGrid_ntheta % 4 == 0) && finestGrid_ntheta / 2 >= 4 && (max_levels_ <= 0 || max_levels_ >= 2);
+                                      (finestGrid_ntheta % 4 == 0) && finestGrid_ntheta / 2 >= 4 && (cap0 <= 0 || cap0 >= 2);
     __CPROVER_assert(g_thrown == !two_levels_possible, "OBL:rejects_exactly_the_grids_without_a_two_level_hierarchy");
     if (!g_thrown) {
         __CPROVER_assert(L >= 2, "OBL:at_least_two_levels");
-        __CPROVER_assert(max_levels_ <= 0 || L <= max_levels_, "OBL:level_cap_respected");
+        __CPROVER_assert(cap0 <= 0 || L <= cap0, "OBL:level_cap_respected");
         int a = finestGrid_nr, b = finestGrid_ntheta;
         for (int j = 0; j < L - 1; j++) {
             __CPROVER_assert(a % 2 == 1 && b % 2 == 0, "OBL:every_level_but_the_coarsest_can_be_coarsened(odd circles, even angles)");
@@ -99,7 +102,7 @@ def levels_replay_cb0(job, key, label, rec):
     import vlib
     v = vlib.last_values(rec)
     try:
-        nr, nt, cap = int(v["finestGrid_nr"]), int(v["finestGrid_ntheta"]), int(v["max_levels_"])
+        nr, nt, cap = int(v["finestGrid_nr"]), int(v["finestGrid_ntheta"]), int(v.get("cap0", v["max_levels_"]))
     except (KeyError, ValueError):
         return None
     if nr * nt > 4000000:
@@ -113,7 +116,7 @@ def levels_replay_cb0(job, key, label, rec):
             if (st[0] if isinstance(st, tuple) else st) != "FAILURE":
                 return {"status": "not-attempted", "detail": "counterexample grid %d x %d too large to allocate natively and no counterexample with nr <= 1200, ntheta <= 2400 exists" % (nr, nt)}
             v2 = dict((k2, v2_) for k2, v2_ in vlib.trace_inputs(j2.traces.get(key, [])))
-            nr, nt, cap = int(v2["finestGrid_nr"]), int(v2["finestGrid_ntheta"]), int(v2["max_levels_"])
+            nr, nt, cap = int(v2["finestGrid_nr"]), int(v2["finestGrid_ntheta"]), int(v2.get("cap0", v2["max_levels_"]))
         except Exception as e:
             return {"status": "not-attempted", "detail": "small-counterexample query failed: %r" % (e,)}
         finally:
@@ -126,7 +129,8 @@ def run(tier, seed, work):
     rep = vlib.Report("C18", tier, seed)
     jobs = build_jobs(tier, seed)
     vlib.run_jobs(jobs, work)
-    rep.absorb(jobs, replay_cb=levels_replay_cb)
+    import driver
+    rep.absorb(jobs, replay_cb=levels_replay_cb, keep=driver.absorb_filter("C18"))   # obligations tagged [C13] belong to that check
     rep.extraction = {"rules_fired": {"chooseNumberOfLevels": jobs[0].rules.summary(), "gridgen": jobs[-1].rules.summary()}, "body_sha256_16": dict(jobs[0].hashes, **jobs[-1].hashes),
                       "dropped": ["unused local linear_complexity_levels (std::log / std::ceil)", "checkParameters / initializeLineSplitting calls of the generating constructor (order of the helper calls is checked textually)"]}
     rep.trusted = ["CBMC 6.11 SAT / z3 5.1", "32-bit int", "double treated as mathematical real in grid generation", "array + size model of std::vector<double>",
